@@ -36,6 +36,39 @@ def is_v3(spec):
     return False
 
 
+class FlakyFailure(Exception):
+    pass
+
+
+class FlakyStr(str):
+    """A string id whose str() fails the first time it is asked, and only then."""
+    _asked = False
+
+    def __str__(self):
+        if not self._asked:
+            self._asked = True
+            raise FlakyFailure('str(id) failed')
+        return str.__str__(self)
+
+
+class Unwritable(object):
+    pass
+
+
+def failed_write(hs, nest):
+    """Both writers are asked for a 3.0 value that holds something they cannot write, inside a list or a dict, as a
+    scalar and as a grid cell; every call fails (with whatever exception)."""
+    val = [1, Unwritable()] if nest == 'list' else {'k': Unwritable()}
+    g = hs.Grid(version='3.0', columns=[('a', [])])
+    g.append({'a': val})
+    for mode in (hs.MODE_JSON, hs.MODE_ZINC):
+        for call in (lambda: hs.dump_scalar(val, mode=mode, version='3.0'), lambda: hs.dump(g, mode=mode)):
+            try:
+                call()
+            except Exception:
+                pass
+
+
 def mkv(hs, spec):
     if spec == 'na':
         return hs.NA
@@ -170,10 +203,12 @@ class C10(BaseCheck):
                     'kind': k.choice(V3_KINDS), 'pos': k.choice(['gmeta', 'cmeta', 'cell', 'inlist', 'indict', 'nested', 'nested-meta']),
                     'visit': [k.choice(VERSIONS[1:]) for _ in range(k.choice([0, 1, 2]))], 'ops': [],
                     # how the document reaches the reader: text, already-decoded JSON object, or one grid of a multi-grid text
-                    'api': k.choice(['text', 'text', 'obj', 'multi'])}
+                    'api': k.choice(['text', 'text', 'obj', 'multi']),
+                    # a write that fails inside a list / dict happens first (what it leaves behind must not matter)
+                    'failed_write': k.random() < 0.3}
         if roll < 0.3:
             return {'class': 'scalar', 'ver': k.choice(VERSIONS[1:]) if k.random() < 0.7 else random_version(k), 'kind': k.choice(V3_KINDS),
-                    'nest': k.choice(['none', 'inlist', 'indict']), 'ops': []}
+                    'nest': k.choice(['none', 'inlist', 'indict']), 'ops': [], 'failed_write': k.random() < 0.3}
         p_v3 = k.choice([0.15, 0.3, 0.5])
         gver = k.choice(VERSIONS) if k.random() < 0.85 else random_version(k)
         ctor = {'meta': [], 'cols': {'a': [], 'b': []}, 'meta_as': k.choice(['dict', 'sd', 'mo']), 'cols_as': k.choice(['pairs', 'dict', 'mo']),
@@ -186,7 +221,7 @@ class C10(BaseCheck):
         kinds = ['meta_set', 'meta_append', 'meta_extend', 'meta_add_item', 'meta_update', 'meta_setdefault',
                  'col_meta_set', 'col_meta_append', 'col_meta_extend', 'col_assign',
                  'append', 'insert', 'extend', 'iadd', 'setitem', 'row_poke', 'col_poke', 'derive', 'extend_grid', 'add_column',
-                 'col_from_grid', 'meta_clear', 'col_meta_clear']
+                 'col_from_grid', 'meta_clear', 'col_meta_clear', 'failed_write', 'append_flaky_id']
         enabled = [x for x in kinds if k.random() < 0.7] or ['append']
         n = k.choice([2, 3, 4, 6, 8, 12]) if tier == 'quick' else k.choice([3, 6, 12, 20, 30])
         ops = []
@@ -208,6 +243,13 @@ class C10(BaseCheck):
                 else:
                     o['k'] = 'c%d' % r.randrange(3)
                     o['v'] = gen_value(r, p_v3)
+            elif op == 'failed_write':
+                o['nest'] = r.choice(['list', 'dict'])
+            elif op == 'append_flaky_id':
+                # a row whose id fails in str() the first time it is asked (index upkeep): the call may fail, the row may
+                # be in or not, but what the grid holds and what it says about its version must still agree
+                o['row'] = {c: gen_value(r, p_v3) for c in COLS if r.random() < 0.9}
+                o['lookup_first'] = r.random() < 0.5
             elif op in ('append', 'insert', 'setitem'):
                 o['row'] = {c: gen_value(r, p_v3 / 2) for c in COLS if r.random() < 0.9}
                 if r.random() < 0.25:
@@ -407,6 +449,15 @@ class C10(BaseCheck):
                     g.column[o['c']] = {k: mkv(hs, s) for k, s in o['pairs']}
                 elif op == 'append':
                     g.append({c: mkv(hs, s) for c, s in o['row'].items()})
+                elif op == 'failed_write':
+                    failed_write(hs, o.get('nest'))
+                    stats['fault.write_fails_inside_list_or_dict'] = stats.get('fault.write_fails_inside_list_or_dict', 0) + 1
+                elif op == 'append_flaky_id':
+                    if o.get('lookup_first'):
+                        g.get('no-such-id')          # an id index exists from here on
+                    row = {c: mkv(hs, s) for c, s in o['row'].items()}
+                    row['id'] = FlakyStr('fl%d' % step)
+                    g.append(row)
                 elif op == 'insert':
                     g.insert(min(o['i'], nrows), {c: mkv(hs, s) for c, s in o['row'].items()})
                 elif op == 'setitem':
@@ -522,7 +573,12 @@ class C10(BaseCheck):
                     poked = False
             kinds = sorted(set(self._kind(s) for s in specs if is_v3(s)))
             tag = '%s:%s' % (op, '+'.join(kinds) or 'plain')
-            if exc is not None:
+            if exc is not None and isinstance(exc, FlakyFailure):
+                # the row's id failed in str(): not a gating decision; the invariants below still apply
+                events.append((step, tag, 'flaky'))
+                skeleton.append(tag + '~')
+                stats['fault.id_str_fails_once'] = stats.get('fault.id_str_fails_once', 0) + 1
+            elif exc is not None:
                 events.append((step, tag, type(exc).__name__))
                 skeleton.append(tag + '!')
                 if not isinstance(exc, ValueError):
@@ -741,14 +797,17 @@ class C10(BaseCheck):
                                                                 'exc': type(exc).__name__, 'msg': str(exc)[:200]}}
         # the Grid and the writers must take the same decision for the same version string
         if viol is None:
-            viol = self._agreement(ver, kind, stats)
+            viol = self._agreement(ver, kind, stats, case.get('failed_write'))
         return {'viol': viol, 'digest': rng.digest((fmt, ver, kind, pos, got)), 'stats': stats,
                 'distinct': ['wire/%s/%s/%s/%s/%s' % (fmt, ver, kind, pos, ','.join(case.get('visit', [])))],
                 'nontrivial': not viol, 'steps': 1}
 
-    def _agreement(self, ver, kind, stats):
+    def _agreement(self, ver, kind, stats, failed_first=False):
         hs = self.hszinc
         want = self.accepts(ver)
+        if failed_first:
+            failed_write(hs, 'list' if len(ver) % 2 else 'dict')
+            stats['fault.write_fails_inside_list_or_dict'] = 1
         spec = {'na': 'na', 'list': {'list': [{'int': 1}]}, 'dict': {'dict': {'x': {'int': 1}}},
                 'grid': {'grid': {'ver': '3.0'}}, 'xstr': {'xstr': ['hex', 'deadbeef']}}[kind]
         got = {}
@@ -802,7 +861,7 @@ class C10(BaseCheck):
                 return {'viol': {'clause': 'reader-exc-type', 'detail': {'api': name, 'version': ver, 'kind': kind,
                                                                          'exc': type(e).__name__, 'msg': str(e)[:200]}},
                         'digest': '', 'stats': stats, 'distinct': [], 'nontrivial': False, 'steps': 1}
-        viol = self._agreement(ver, kind, stats)
+        viol = self._agreement(ver, kind, stats, case.get('failed_write'))
         bad = {k: v for k, v in decisions.items() if v != want}
         if viol is None and bad:
             viol = {'clause': 'scalar-reader-disagreement', 'detail': {'version': ver, 'kind': kind, 'nest': nest,
